@@ -105,6 +105,16 @@ func (c *collection) deleteWithFilter(
 			DocID:             docID,
 		}
 
+		// The document's entries in the secondary indexes are removed as well, like Delete does.
+		parsedDocID, err := client.NewDocIDFromString(docID)
+		if err != nil {
+			return nil, err
+		}
+		err = c.deleteIndexedDocWithID(ctx, parsedDocID)
+		if err != nil {
+			return nil, err
+		}
+
 		// Delete the document that is associated with this DS key we got from the filter.
 		err = c.applyDelete(ctx, primaryKey)
 		if err != nil {
